@@ -145,6 +145,9 @@ def r022_023(ctx):
                                 bad.append(f"between_groups errors={erv}: {A.show(got, 160)}")
                         else:
                             rso = [s for s in subterms(got) if s.op == "closure"]
+                            if not rso:   # the fold as a module-level helper (summarised as a lambda) or written as a lambda
+                                rso = [s for s in subterms(got) if s.op == "lam" and s.args[0] == 1 and s.args[1].op == "ite"
+                                       and not contains(s.args[1], lambda z: z.op == "call" and z.args[0] is glob("numpy.isscalar"))]
                             if len(rso) != 1:
                                 bad.append("to_overall: the fold function was not found")
                                 continue
@@ -158,7 +161,11 @@ def r022_023(ctx):
                                 bad.append(f"to_overall control={'yes' if cfv else 'no'}: {A.show(got, 200)}")
                             # the fold itself
                             x = mk("param", "spec", "x")
-                            fv = A.ev.call_term(f, [x], State({}, {}, ()), M_DR)
+                            if f.op == "lam":
+                                from ..terms import substitute
+                                fv = substitute(f.args[1], {mk("bv", 0): x})
+                            else:
+                                fv = A.ev.call_term(f, [x], State({}, {}, ()), M_DR)
                             wf = mk("ite", A.spec("x > 1", {"x": x}), A.spec("1 / x", {"x": x}), x)
                             if not A.eq(fv, wf):
                                 bad.append(f"fold f(x) = {A.show(fv, 100)} (documented 1/x for x > 1, x otherwise)")
